@@ -6,6 +6,7 @@ import (
 	"fmt"
 	"go/types"
 	"sort"
+	"strings"
 
 	"golang.org/x/tools/go/ssa"
 )
@@ -255,6 +256,15 @@ func (x *Exec) merge(states []*State) *State {
 		}
 		if same {
 			return vals[0]
+		}
+		if strings.HasPrefix(string(vals[0].Sort), "(Array ") {
+			// arrays: a fresh constant equal to the incoming value under each
+			// incoming path condition (no ite over arrays: keeps triggers usable)
+			m := x.sc.Fresh("merged", vals[0].Sort)
+			for i := range vals {
+				x.sc.Assume(Implies(live[i].reach, Eq(m, vals[i])))
+			}
+			return m
 		}
 		res := vals[len(vals)-1]
 		for i := len(vals) - 2; i >= 0; i-- {
